@@ -356,7 +356,7 @@ def run(rep, tier, seed, replay=None):
                 if b"panicked at" in err:
                     rep.oracle_failures.append(("cli-panic:" + fmt, f"panic: {err[-300:]!r}", case_desc, ""))
                     continue
-                if rc != 0 and b"Bson Error" in err and fmt.startswith("bson"):
+                if rc != 0 and b"Bson" in err and b"panicked" not in err and fmt.startswith("bson"):
                     # BSON has no unsigned 64-bit integer: a u64 above i64::MAX cannot be written (known finding)
                     rep.oracle_failures.append((f"cli-bson-unrepresentable:{mode}", f"exit {rc}, stderr {err[-160:]!r}", case_desc, ""))
                     continue
